@@ -2319,7 +2319,7 @@ class VM:
                 return s
 
         def replaceAll(*args):
-            pattern = args[0] if args else ""
+            pattern = args[0] if args else UNDEFINED
 
             if isinstance(pattern, JSRegExp):
                 self._arm_regex(pattern)
